@@ -193,4 +193,11 @@ void run_bigcase(const Op &op, int rank, int nprocs, const std::function<void(co
         MPI_Barrier(MPI_COMM_WORLD);
     }
     finish();
+    // ---- the file the library just wrote must open again (the size rules are re-checked on open) with the same layout
+    MPI_Barrier(MPI_COMM_WORLD);
+    int ncid2 = -1; rc = lib([&] { return ncmpi_open(MPI_COMM_WORLD, path, NC_NOWRITE, MPI_INFO_NULL, &ncid2); });
+    if (rc != NC_NOERR) { fail("big-reopen", "ncmpi_open of the file just written with accepted definitions failed: " + std::string(ncmpi_strerrno(rc))); return; }
+    int nv2 = -1; ncmpi_inq_nvars(ncid2, &nv2); if (nv2 != (int)c.vars.size()) fail("big-reopen", "reopened file reports " + std::to_string(nv2) + " variables");
+    for (size_t i = 0; i < d.vars.size() && (int)i < nv2; i++) { MPI_Offset off = -1; ncmpi_inq_varoffset(ncid2, (int)i, &off); if (off != d.vars[i].begin) fail("big-reopen", "after reopen ncmpi_inq_varoffset(v" + std::to_string(i) + ") = " + std::to_string((long long)off) + " but the header says " + std::to_string(d.vars[i].begin)); }
+    lib([&] { return ncmpi_close(ncid2); });
 }
